@@ -24,7 +24,17 @@ FIXED = [
  ("C13", "shallow_equal_ignore_attributes counts", "shallow_equal_ignore_attributes with a name repeated in the ignore list that b carries: the name was subtracted twice (usize underflow panic in dev, wrong answer in release)"),
 ]
 
+_DEFNS = {"class": "KF-no-namespace-element-under-default-namespace", "status": "open",
+  "what": "an element in no namespace is serialised unprefixed although a default namespace is bound in its scope (no xmlns=\"\" "
+          "is emitted and no error is returned): the text re-parses with the element in the default namespace",
+  "witness": "<p:r xmlns:p='urn:a'><e xmlns:q='urn:b' xmlns='urn:a' t='v'/><e/></p:r> built through the API with e in no namespace; "
+             "to_string succeeds, parse puts the first e into urn:a",
+  "call_site": "src/output/fullname.rs FullnameSerializer::element_prefix (no-namespace branch returns Ok(None) without looking at the default binding)",
+  "why_not_fixed": "needs a design decision (emit xmlns=\"\" on the fly, or refuse with an error); either changes the output of trees that serialise today"}
+
 OPEN = [
+ dict(_DEFNS, property="C01"),
+ dict(_DEFNS, property="C10"),
  {"property": "C04", "class": "KF-C04-unwrap-parentless-element", "status": "open",
   "what": "element_unwrap of an element that has no parent but several children leaves the children as each other's siblings without a parent (parentless nodes with siblings)",
   "witness": "unattached <a x=..>t1<b/>t2<w/></a>; element_unwrap(a); next_sibling(t1) is Some while parent(t1) is None",
